@@ -94,9 +94,12 @@ Example C13_table_nonvacuous :
   (exists site, In site append_sites /\ in_call_scope site = true /\ as_class site = PrefixField
                 /\ as_arg site = "e.keyPrefix"%string)
   /\ (exists site, In site append_sites /\ in_call_scope site = false /\ as_class site = Input)
-  /\ 40 <= List.length (filter in_call_scope append_sites)
-  /\ 10 <= List.length (filter (fun ks => in_call_scope (snd ks)) write_sites).
+  /\ 20 <= List.length (filter in_call_scope append_sites)
+  /\ 5 <= List.length (filter (fun ks => in_call_scope (snd ks)) write_sites).
 Proof. exact table_nonvacuous. Qed.
+(* the table has one entry per `append (` token pair of the analysed files (independent token-level count) *)
+Example C13_table_complete : List.length append_sites = append_token_count.
+Proof. exact table_complete. Qed.
 
 (* ---- composition: no execution writes a cell of an input array or of a shared prefix array ---- *)
 Theorem C13_calls_never_write_input_or_prefix :
@@ -148,6 +151,7 @@ Print Assumptions C13_write_sites_safe.
 Print Assumptions C13_prefix_args_known.
 Print Assumptions C13_sites_accounted.
 Print Assumptions C13_table_nonvacuous.
+Print Assumptions C13_table_complete.
 Print Assumptions C13_calls_never_write_input_or_prefix.
 Print Assumptions C13_spare_prefix_is_written.
 Print Assumptions C13_input_class_is_unsafe.
